@@ -306,7 +306,7 @@ def damage_cases(rng, n):
 class C03(Base):
     ID = "C03"
     AREA = "parse"
-    LEMMA_FILES = ["FluentProofs/ParserLoops.lean", "FluentProofs/ParserLines.lean", "FluentProofs/ParserBasics.lean", "FluentProofs/ParserHoareEntry.lean", "FluentProofs/ParserValid.lean", "FluentProofs/ParserValidLeaf.lean", "FluentProofs/ParserValidExpr.lean", "FluentProofs/ParserValidEntry.lean", "FluentProofs/ConstTieSyntax.lean"]
+    LEMMA_FILES = ["FluentProofs/ParserLoops.lean", "FluentProofs/ParserLines.lean", "FluentProofs/ParserBasics.lean", "FluentProofs/ParserHoareEntry.lean", "FluentProofs/ParserValid.lean", "FluentProofs/ParserValidLeaf.lean", "FluentProofs/ParserValidExpr.lean", "FluentProofs/ParserValidEntry.lean", "FluentProofs/ConstTieSyntax.lean", "FluentProofs/ParserLocalDefs.lean", "FluentProofs/ParserLocalLoop.lean", "FluentProofs/ParserLocalShiftLeaf.lean", "FluentProofs/ParserLocalShiftExpr.lean", "FluentProofs/ParserLocalShiftPat.lean", "FluentProofs/ParserLocalShiftEntry.lean", "FluentProofs/ParserLocalBarLeaf.lean", "FluentProofs/ParserLocalBarExpr.lean", "FluentProofs/ParserLocalBarEntry.lean", "FluentProofs/ParserLocalPreLeaf.lean", "FluentProofs/ParserLocalPreLeaf2.lean", "FluentProofs/ParserLocalPreExpr.lean", "FluentProofs/ParserLocalPreExpr2.lean", "FluentProofs/ParserLocalPreEntry.lean", "FluentProofs/ParserLocalPreLoop.lean", "FluentProofs/ParserLocalTop.lean"]
     RULE = ("the C01 generator mix (accounting clauses and the admission predicate recomputed on every output of both "
             "parsers) plus the damage generator: random well-formed resource x entry index x 32 violation kinds (the "
             "documented ones) x 7 placements (first line, continuation line, nested placeable, call argument, variant "
